@@ -112,7 +112,8 @@ Definition is_zero (a : num) : bool := n_eqb ops a zero.
 Record env := mkEnv {
   e_scal : list (string * val);
   e_arr : list (string * (list Z * list (Z * val)));
-  e_saved : list (list Z * num)
+  e_saved : list (list Z * num);
+  e_host : list (string * num)      (* values of argument-less host functions (TIME ...) supplied by the caller, keyed by enumerator name *)
 }.
 
 Definition default_of (name : string) : val := if last_is_dollar name then VStr "" else VNum zero.
@@ -359,7 +360,10 @@ Definition factor_body (e : env) (ev : nat -> list tok -> vres) (tl : list tok -
         | Some _ => bind (realfactor r) (fun p => match fn1 k (fst p) with Some rv => bind rv (fun v => Ok (v, snd p)) | None => Err "unreachable" end)
         | None =>
             match k with
-            | Kother _ => Unsup "PHREEQC function outside the model"
+            | Kother nm => match assoc_s (e_host e) nm with
+                           | Some x => Ok (VNum x, r)
+                           | None => Unsup "PHREEQC function outside the model"
+                           end
             | _ => Err "Syntax_error: missing "" or ("
             end
         end
